@@ -474,7 +474,7 @@ ldb_iter_t *ldb_iter_create(void *ptr, const ldb_itertbl_t *table, const ldb_com
 #define CREATED_IT ((ldb_blockiter_t *)g_ic_ptr)
 
 ldb_iter_t *c_blockiter_create(const ldb_block_t *block, const ldb_comparator_t *comparator)
-__CPROVER_requires(__CPROVER_r_ok(block, sizeof(*block)) && block->size <= 0xffffffffu && BLK_RI(block))
+__CPROVER_requires(__CPROVER_r_ok(block, sizeof(*block)) && block->size <= 0xffffffffu && (block->size < 4 || BLK_RI(block)))
 __CPROVER_requires(block->size == 0 || __CPROVER_r_ok(block->data, block->size))
 __CPROVER_requires(g_empty_calls == 0 && g_ic_calls == 0)
 __CPROVER_assigns(g_empty_calls, g_empty_status, g_ic_calls, g_ic_ptr, g_ic_table, g_ic_cmp)
@@ -500,7 +500,7 @@ void h_blockiter_create(void) {
   IN_BUF(buf, in_n);
   ASSUME(in_n <= 0xffffffffu && (in_size == in_n || in_size == 0));   /* size = 0 is the error marker of ldb_block_init */
   b.data = buf; b.size = in_size; b.restart_offset = in_ro; b.owned = in_owned;
-  ASSUME(BLK_RI(&b));
+  ASSUME(in_size < 4 || BLK_RI(&b));   /* blocks shorter than a trailer need not come from ldb_block_init */
   g_empty_calls = 0; g_ic_calls = 0; g_ic_ptr = NULL; g_ic_table = NULL; g_ic_cmp = NULL; g_empty_status = -1;
   r = ldb_blockiter_create(&b, &g_cmp);
   CHECK(r == &g_iter_empty || r == &g_iter_block, "blockiter_create: returns the empty iterator or a block iterator");
